@@ -321,7 +321,7 @@ def strat_grammar():
     return s()
 
 
-NON_NFC = ["cafe\u0301", "\u212bngstro\u0308m", "\u1112\u1161\u11ab", "\u212a", "re\u0301sume\u0301.gmi", "\u00e9t\u00e9", "\u65e5\u672c"]
+NON_NFC = ["a\u2028b/c", "x\u0085y", "p\x0bq", "line\u2029sep", "f\x1cg", "cafe\u0301", "\u212bngstro\u0308m", "\u1112\u1161\u11ab", "\u212a", "re\u0301sume\u0301.gmi", "\u00e9t\u00e9", "\u65e5\u672c"]
 
 
 def strat_wire():
